@@ -32,6 +32,7 @@ def run(ctx):
             # with debug assertions on, invariant! is a debug_assert! even under `unsafe` (no assumption to pair)
             ctx.guard("C14", "invpair", lambda: features.invpair(ctx, prog))
         ctx.guard("C14", "mirror", lambda: engine.mirror(ctx, prog))
+        ctx.guard("C14", "cursor", lambda: engine.pointer_cursor(ctx, prog))
         ctx.guard("C14", "siblings", lambda: engine.siblings(ctx, prog))
         ctx.guard("C14", "loopstate", lambda: engine.loop_state(ctx, prog))
         ctx.guard("C14", "ascii", lambda: text.ascii_only(ctx, prog))
